@@ -848,9 +848,25 @@ def build_manager(ctx, case, files):
         ftops.append(f)
     files += ftops
     man = Manager.from_files(fsys, *ftops)
+    late = len(case["order"]) % 3 == 0
+    if late:
+        # history: the manager is LOOKED AT before the end molecules are attached (complete_correspondence read, a
+        # parse_restrictions call), and they are attached the way the Manager docstring documents, by assignment to
+        # `.end` (what the command line does): what exists is decided when it is asked for (seed C10-13: the complete
+        # species memoised at the first look-up, invalidated only by add_end_molecule)
+        ctx.count("manager:looked-at-before-end-molecules-attached-by-assignment")
+        try:
+            dict(man.complete_correspondence)
+            man.parse_restrictions(None)
+        except Exception:   # noqa: BLE001
+            pass
     for s in case["species"]:
         if s.get("end") is not None:
-            man.add_end_molecule(load(ctx, s["end"], files))
+            mol = load(ctx, s["end"], files)
+            if late:
+                man.molecule_correspondence[s["start"]["name"]].end = mol
+            else:
+                man.add_end_molecule(mol)
     return man
 
 
